@@ -187,7 +187,9 @@ def run(repo, chk, tier):
                       ('C08.4d', 'the buffer is emptied after every scored batch (no row is scored twice)'), ('C08.4e', 'every scored batch is accumulated, then the checkpoint is rewritten from the accumulator')):
         if oid in problems:
             node, why = problems[oid]
-            chk.bad(oid, 'R1' if oid in ('C08.4d', 'C08.4e', 'C08.4c') else 'R14', fn.site(node), ast.unparse(node).replace('\n', ' ')[:100], why)
+            # "not found" verdicts are shape recognisers: they abstain when the loop was restructured (soft); "found and wrong" ones do not
+            absence = oid == 'C08.4c' and 'are not accumulated' in why
+            chk.bad(oid, 'R1' if oid in ('C08.4d', 'C08.4e', 'C08.4c') else 'R14', fn.site(node), ast.unparse(node).replace('\n', ' ')[:100], why, soft=absence)
         else:
             chk.ok(oid, 'R1' if oid in ('C08.4d', 'C08.4e', 'C08.4c') else 'R14', fn.site(loop), f'{trig_seen[True]} full-buffer path(s), {trig_seen[False]} other', good)
     if len(acc_names) != 1:
